@@ -12,7 +12,7 @@ from ..model import AnalysisError, Program
 from ..paths import linear, show
 from ..report import Report
 from ..table import fmt_val
-from .common import ERROR_CLASSES, HANDLE_FAILURE, NON_RETRYABLE, RUNNERS, SELF, attr, check_enums, path_where
+from .common import ERROR_CLASSES, HANDLE_FAILURE, NON_RETRYABLE, RUNNERS, SELF, attr, check_enums, path_where, owned_by
 from .failure_table import COUNT0, KLASS, UNK0, failure_table
 from .runner_flow import flag1, RUN_MODULES, RunnerClient, run_runners, short_witness
 
@@ -83,8 +83,8 @@ def check_loop(rep: Report, prog: Program) -> None:
             for n in prog._own_nodes(fi.node):
                 if isinstance(n, ast.Attribute) and isinstance(n.ctx, (ast.Store, ast.Del)) and n.attr in CAP_ATTRS | COUNTER_ATTRS:
                     owner_ok = (
-                        (n.attr in CAP_ATTRS and fi.qual == "redress.policy.base:_BaseRetryPolicy.__init__")
-                        or (n.attr in COUNTER_ATTRS and fi.qual in ("redress.policy.state:_RetryState.__init__", HANDLE_FAILURE))
+                        (n.attr in CAP_ATTRS and owned_by(prog, fi, "redress.policy.base:_BaseRetryPolicy.__init__"))
+                        or (n.attr in COUNTER_ATTRS and owned_by(prog, fi, ("redress.policy.state:_RetryState.__init__", HANDLE_FAILURE)))
                     )
                     selfbase = isinstance(n.value, ast.Name) and n.value.id == "self"
                     rep.instance("R1.1", f"writer|{fi.qual}|{n.attr}")
